@@ -105,7 +105,7 @@ def make_spec(capacity):
 
 
 def run(report, tier):
-    depths = {1: 8, 2: 8, 3: 3} if tier == "quick" else {1: 10, 2: 9, 3: 5}
+    depths = {1: 8, 2: 8, 3: 3} if tier == "quick" else {1: 10, 2: 9, 3: 4}
     report.rule("one evaluation = one operation of the mapping menu applied in one cache state reached within the "
                 "depth bound, followed by list(c) against the reference set (victim has a minimal count, order "
                 "non-decreasing in count), len, dict/list/link agreement and a look-up of every key on a deep copy; "
